@@ -3,7 +3,38 @@
 Prints one line per change: which properties' checks report a new violation, and by which rules.
 usage: run_seeded.py [ids...] [--all-props]"""
 import json, os, shutil, subprocess, sys, tempfile
+from concurrent.futures import ThreadPoolExecutor
 HERE = os.path.dirname(os.path.dirname(os.path.abspath(__file__)))
+
+
+def one(name, claimed, all_props):
+    sd = os.path.join(HERE, "seeded")
+    d = os.path.join(sd, name)
+    meta = json.load(open(os.path.join(d, "meta.json")))
+    tmp = tempfile.mkdtemp(prefix="seedrun_")
+    try:
+        shutil.copytree("/repo/mouette", os.path.join(tmp, "mouette"))
+        ap = subprocess.run(["patch", "-p1", "-s", "-i", os.path.join(d, "patch.diff")], cwd=tmp, capture_output=True, text=True)
+        if ap.returncode != 0:
+            return (name, meta["property"], "PATCH-FAILED", ap.stdout[:200])
+        props = claimed if all_props else [meta["property"]]
+        caught = {}
+        for p in props:
+            env = dict(os.environ, MSA_REPO=tmp, MSA_NO_EVIDENCE="1")
+            r = subprocess.run([os.path.join(HERE, "check"), p], capture_output=True, text=True, env=env, cwd=HERE)
+            rules = sorted({l.split("rule=")[1].split()[0] for l in r.stdout.splitlines() if l.strip().startswith("finding rule=")})
+            if r.returncode == 1:
+                caught[p] = rules
+            elif r.returncode == 2:
+                und = sorted({l.split("rule=")[1].split()[0] for l in r.stdout.splitlines() if l.strip().startswith("UNDECIDED rule=")})
+                caught[p] = ["ANALYSIS-ERROR: " + (("undecided " + ",".join(und)) if und else r.stdout.strip().splitlines()[-1][:150])]
+        own = caught.get(meta["property"])
+        verdict = "CAUGHT" if own and not str(own[0]).startswith("ANALYSIS") else ("caught-by-other" if any(
+            not str(v[0]).startswith("ANALYSIS") for v in caught.values()) else ("UNDECIDED" if caught else "MISSED"))
+        return (name, meta["property"], verdict, caught)
+    finally:
+        shutil.rmtree(tmp, ignore_errors=True)
+
 
 def main():
     ids = [a for a in sys.argv[1:] if not a.startswith("--")]
@@ -11,35 +42,10 @@ def main():
     sd = os.path.join(HERE, "seeded")
     man = json.load(open(os.path.join(HERE, "MANIFEST.json")))
     claimed = [c["property_id"] for c in man["checks"]]
-    rows = []
-    for name in sorted(os.listdir(sd)):
-        if ids and name not in ids:
-            continue
-        d = os.path.join(sd, name)
-        if not os.path.exists(os.path.join(d, "patch.diff")):
-            continue
-        meta = json.load(open(os.path.join(d, "meta.json")))
-        tmp = tempfile.mkdtemp(prefix="seedrun_")
-        try:
-            shutil.copytree("/repo/mouette", os.path.join(tmp, "mouette"))
-            ap = subprocess.run(["patch", "-p1", "-s", "-i", os.path.join(d, "patch.diff")], cwd=tmp, capture_output=True, text=True)
-            if ap.returncode != 0:
-                rows.append((name, meta["property"], "PATCH-FAILED", ap.stdout[:200]))
-                continue
-            props = claimed if all_props else [meta["property"]]
-            caught = {}
-            for p in props:
-                env = dict(os.environ, MSA_REPO=tmp, MSA_NO_EVIDENCE="1")
-                r = subprocess.run([os.path.join(HERE, "check"), p], capture_output=True, text=True, env=env, cwd=HERE)
-                rules = sorted({l.split("rule=")[1].split()[0] for l in r.stdout.splitlines() if l.strip().startswith("finding rule=")})
-                if r.returncode == 1:
-                    caught[p] = rules
-                elif r.returncode == 2:
-                    caught[p] = ["ANALYSIS-ERROR: " + r.stdout.strip().splitlines()[-1][:150]]
-            rows.append((name, meta["property"], "CAUGHT" if meta["property"] in caught and not str(caught[meta["property"]][0]).startswith("ANALYSIS") else
-                         ("caught-by-other" if caught else "MISSED"), caught))
-        finally:
-            shutil.rmtree(tmp, ignore_errors=True)
+    names = [n for n in sorted(os.listdir(sd)) if (not ids or n in ids) and os.path.exists(os.path.join(sd, n, "patch.diff"))
+             and os.path.exists(os.path.join(sd, n, "meta.json"))]
+    with ThreadPoolExecutor(int(os.environ.get("MSA_JOBS", "12"))) as ex:
+        rows = list(ex.map(lambda n: one(n, claimed, all_props), names))
     for r in rows:
         print(f"{r[0]:24s} {r[1]:4s} {r[2]:16s} {r[3]}")
     if not ids and all_props:
